@@ -80,3 +80,40 @@ def run_case(case: Dict[str, Any]) -> Outcome:
 
 
 SELFTEST_CASES = [{"W": 2, "mf": 2, "h": [{"die": [0], "sig": []}, {"die": [], "sig": ["HUP"]}, {"die": [1], "sig": ["TERM"]}], "sd": []}]
+
+
+# ---------------------------------------------------------------- CLI wiring: --max-fails / --workers reach the manager's arguments
+
+from vt.harness import cliwire as _cliwire
+from taskiq.cli.worker.args import WorkerArgs as _WorkerArgs
+
+_parts_core = parts
+_run_core = run_case
+
+
+def parts(tier: str) -> List[Part]:  # type: ignore[no-redef]
+    ps = _parts_core(tier)
+    ps.append(Part("cli_wiring", "given", shards=1, examples=1500 if tier == "thorough" else 150,
+                   strategy=lambda: _cliwire.FLAGS.map(lambda f: {"flags": f}), soft_deadline_s=300))
+    return ps
+
+
+def run_case(case: Dict[str, Any]) -> Outcome:  # type: ignore[no-redef]
+    if "flags" not in case:
+        return _run_core(case)
+    out = Outcome()
+    out.clauses_checked = ["C18.a"]
+    f = case["flags"]
+    try:
+        args = _WorkerArgs.from_cli(_cliwire.argv_of(f))
+        exp_mf = f["max_fails"] if f.get("max_fails") is not None else -1
+        exp_w = f["workers"] if f.get("workers") is not None else 2
+        if args.max_fails != exp_mf or type(args.max_fails) is not int:
+            out.add("C18.a", f"--max-fails {f.get('max_fails')} parsed as {args.max_fails!r}, expected {exp_mf}")
+        if args.workers != exp_w:
+            out.add("C18.a", f"--workers {f.get('workers')} parsed as {args.workers!r}, expected {exp_w}")
+    except BaseException as e:  # noqa: BLE001
+        out.add("C18.a", f"parsing {_cliwire.argv_of(f)[3:]} failed: {type(e).__name__}: {e}")
+    out.nontrivial = f.get("max_fails") is not None
+    out.classes = ["cli_wiring"]
+    return out
